@@ -139,6 +139,7 @@ pub const K_DUP: &str = "list_struct_duplicate_column";
 pub const K_GARBAGE: &str = "masked_values_leak";
 pub const K_REBASE: &str = "list_offsets_not_rebased";
 pub const K_LISTVAL: &str = "list_validity_differs";
+pub const K_BOOLOFF: &str = "deep_copy_sliced_bool_offset";
 /// order in which a failing case is attributed
 pub const CLASS_ORDER: [&str; 8] = [K_NONNULL, K_REBASE, K_DUP, K_OFFSET, K_ONE_SIDED, K_BOTH_NULL, K_LISTVAL, K_GARBAGE];
 
@@ -191,6 +192,11 @@ pub fn classes_merge(l: &StructArray, r: &StructArray, out: &mut BTreeSet<&'stat
                         }
                         if leaks(l, lc.as_ref()) || leaks(r, rc.as_ref()) {
                             out.insert(K_GARBAGE);
+                        }
+                        // the item structs are merged when neither side is entirely null
+                        let (ll, rl) = (lc.as_list::<i32>(), rc.as_list::<i32>());
+                        if ll.null_count() != ll.len() && rl.null_count() != rl.len() && ll.values().len() == rl.values().len() {
+                            classes_merge(ll.values().as_struct(), rl.values().as_struct(), out);
                         }
                     }
                     _ => adjust_classes(l, lc.as_ref(), lf.is_nullable(), out),
